@@ -230,6 +230,10 @@ pub mod utils;
 /// Events.
 pub mod events;
 
+/// Verification hooks.
+#[cfg(gmsol_verif)]
+pub mod verif;
+
 use self::{
     instructions::*,
     ops::{
